@@ -1,33 +1,88 @@
 ---------------------------- MODULE Trace_Logging ----------------------------
-(* code -> spec: executions recorded from the real dispatcher / RemoteLogHandler *)
-(* must be behaviours of Logging; one JVM validates a whole batch of traces.     *)
+(* code -> spec: executions recorded from the real dispatcher / RemoteLogHandler / MainLogger / HasComlog *)
+(* must be behaviours of Logging; one JVM validates a whole batch of traces.                             *)
+(* A trace may start with a "boot" event carrying the configuration the node was started with.           *)
 EXTENDS Logging, Json, IOUtils, TLCExt, SequencesExt
 Traces == JsonDeserialize(IOEnv.TRACE_FILE)
 NT == Len(Traces)
-VARIABLES t, l
+VARIABLES t, l,
+          devs,     \* names of the deviations this trace needed (a deviation is a violation unless it is a known finding)
+          virgin    \* [Files -> 0 .. MaxDay]: day on which the handler of the file was created, 0 once it has written
 ASSUME \A i \in 1 .. NT : TLCSet(i, 1)
 
 Ev == Traces[t][l]
-TInit == RInit /\ t \in 1 .. NT /\ l = 1
+Has(e, f) == f \in DOMAIN e
+DefaultCfg == CHOOSE c \in CfgOne : TRUE
+TInit == /\ t \in 1 .. NT /\ l = 1 /\ devs = {}
+         /\ level = [mc \in Mods \X Conns |-> Off]
+         /\ alive = Conns
+         /\ last = None
+         /\ cfg = IF Traces[t][1].ev = "boot" THEN Traces[t][1].cfg ELSE DefaultCfg
+         /\ day = 1
+         /\ dated = [f \in Files |-> {}]
+         /\ virgin = [f \in Files |-> 1]
 
 LevelsMatch(e) == ~e.haslevel \/ \A m \in Mods, c \in Conns : level'[<<m, c>>] = e.level[m][c]
+(* observed local sinks (events of worlds without local sinks do not carry them) *)
+SinksMatch(e) == Has(e, "sinks") => last'.sinks = ToSet(e.sinks)
+DatedMatch(e) == Has(e, "dated") => /\ day' = e.day
+                                    /\ \A f \in Files : dated'[f] = ToSet(e.dated[f])
+
+IntendedLast(e) ==
+    CASE e.ev = "emit" -> [kind |-> "emit", to |-> Receivers(e.mod, e.lvl), mod |-> e.mod, lvl |-> e.lvl,
+                           sinks |-> ModSinks(e.lvl)]
+      [] e.ev = "mainemit" -> [kind |-> "mainemit", to |-> {}, lvl |-> e.lvl, sinks |-> MainSinks(e.lvl)]
+      [] e.ev = "comlog" -> [kind |-> "comlog", to |-> Receivers(e.mod, "comlog"), mod |-> e.mod, lvl |-> "comlog",
+                             sinks |-> ComSinks(e.mod)]
+Written == virgin' = [f \in Files |-> IF f \in last'.sinks THEN 0 ELSE virgin[f]]
+
+(* DEVIATION of the code (mlzlog opens a log file with the first record but closes it unconditionally at the    *)
+(* first rollover): a file handler that did not write anything on the day of its creation never writes at all   *)
+Dev_LostAfterMidnight(e) ==
+    LET il == IntendedLast(e)
+        lost == {f \in il.sinks \cap Files : virgin[f] # 0 /\ virgin[f] < day}
+    IN /\ lost # {}
+       /\ last' = [il EXCEPT !.sinks = il.sinks \ lost]
+       /\ Write(il.sinks \ lost)
+       /\ UNCHANGED <<level, alive, cfg, day>>
 
 TStep ==
   /\ l <= Len(Traces[t])
   /\ l' = l + 1 /\ t' = t
-  /\ \/ /\ Ev.ev = "logging"
+  /\ \/ /\ Ev.ev = "boot" /\ l = 1
+        /\ UNCHANGED <<rvars, devs, virgin>>
+     \/ /\ Ev.ev = "logging"
         /\ LoggingReq(Ev.conn, Ev.target, Ev.lvl)
         /\ last'.ok = Ev.ok
+        /\ UNCHANGED <<devs, virgin>>
      \/ /\ Ev.ev = "emit"
-        /\ Emit(Ev.mod, Ev.lvl)
+        /\ \/ Emit(Ev.mod, Ev.lvl) /\ UNCHANGED devs
+           \/ Dev_LostAfterMidnight(Ev) /\ devs' = devs \cup {"Dev_LostAfterMidnight"}
         /\ last'.to = ToSet(Ev.to)
-     \/ /\ Ev.ev = "ident" /\ Ident(Ev.conn)
-     \/ /\ Ev.ev = "disconnect" /\ Disconnect(Ev.conn)
+        /\ Written
+     \/ /\ Ev.ev = "mainemit"
+        /\ \/ MainEmit(Ev.lvl) /\ UNCHANGED devs
+           \/ Dev_LostAfterMidnight(Ev) /\ devs' = devs \cup {"Dev_LostAfterMidnight"}
+        /\ Written
+     \/ /\ Ev.ev = "comlog"
+        /\ \/ ComLog(Ev.mod) /\ UNCHANGED devs
+           \/ Dev_LostAfterMidnight(Ev) /\ devs' = devs \cup {"Dev_LostAfterMidnight"}
+        /\ last'.to = ToSet(Ev.to)
+        /\ Written
+     \/ /\ Ev.ev = "nextday" /\ NextDay /\ UNCHANGED <<devs, virgin>>
+     \/ /\ Ev.ev = "reinit" /\ ReInit /\ UNCHANGED devs
+        \* every communicator gets a new comlog file handler
+        /\ virgin' = [f \in Files |-> IF f \in ComMods THEN day ELSE virgin[f]]
+     \/ /\ Ev.ev = "ident" /\ Ident(Ev.conn) /\ UNCHANGED <<devs, virgin>>
+     \/ /\ Ev.ev = "disconnect" /\ Disconnect(Ev.conn) /\ UNCHANGED <<devs, virgin>>
   /\ LevelsMatch(Ev)
+  /\ Ev.ev \in {"emit", "mainemit", "comlog"} => SinksMatch(Ev)
+  /\ DatedMatch(Ev)
 
-TSpec == TInit /\ [][TStep]_<<rvars, t, l>>
+TSpec == TInit /\ [][TStep]_<<rvars, t, l, devs, virgin>>
 
 Track == TLCSet(t, IF l > TLCGet(t) THEN l ELSE TLCGet(t))
+Done == (l = Len(Traces[t]) + 1) => PrintT(<<"DEVS", t, ToJson(devs)>>)
 Verdicts == \A i \in 1 .. NT :
    IF TLCGet(i) = Len(Traces[i]) + 1 THEN PrintT(<<"ACCEPT", i>>)
    ELSE PrintT(<<"REJECT", i, TLCGet(i), "event not explained by Logging">>)
